@@ -45,8 +45,8 @@ CHECKS = {
    text='With no criterion every valid matching is optimal; the stand-in returns each in turn and every field and listing of the short and long result text is compared with the statistics defined in MPDefs.tla.',
    tech='TLC-computed reports + replay through get_results_short/long for every valid matching'),
  'C13': dict(cat='model_checking', sec='6 C13',
-   text='TLA+ writer/reader tie automata model-checked exhaustively (all lists up to length 10/12, all 2^n indicator vectors); every TLC behaviour replayed into create_string_pref, the reader and Solver file loading (2/3-agent, first/second side). Exhaustive for the stated n.',
-   tech='TLC exhaustive model checking of MC_Ties.tla + replay of all exported behaviours into the implementation'),
+   text='TLA+ writer/reader tie automata model-checked exhaustively (all lists up to length 10/12, all 2^n indicator vectors); every TLC behaviour replayed into create_string_pref, the reader and Solver file loading (2/3-agent, first/second side). Exhaustive for the stated n; plus three-digit entries, sampled decision vectors for lists of 25 and 60 entries, and a finite abstraction of both automata (spec/unbounded/TiesAbs.tla, 6 abstract states, all list lengths) that every concrete step is checked to refine (action properties WriterBridge/ReaderBridge).',
+   tech='TLC exhaustive model checking of MC_Ties.tla + finite abstraction for all lengths + replay of all exported behaviours into the implementation'),
  'C14': dict(cat='fault_enumeration', sec='6 C14',
    text='MC_Faults.tla enumerates, per criteria sequence (1-7 underlying solves incl. per-rank solves), every placement of every back-end failure kind, transient/persistent, all pairs, limit set/unset, duration patterns, and proves the report rule (NoMatchingUnlessAllProven, ShowsFirstBadOrTimeout) on the specification; every plan is replayed into the real code with outcomes injected at COIN_CMD.actualSolve under three leftover-value policies (and once more after a healthy solve on the same object) and a virtual clock in microseconds, over get_results/_short/_long. Unbounded: TLAPS proves (spec/unbounded/FaultProofs.tla over MPSolverAbs.tla, 32 obligations) that whatever is presented in full was proven optimal for every instance, criteria list and plan; TLC checks that the real actions refine the abstract ones.',
    tech='TLC enumeration of fault plans (MC_Faults.tla) + fault injection at the pulp boundary with a virtual clock + TLAPS proof of the presentation invariant'),
